@@ -18,6 +18,8 @@ type JMember struct {
 	N      B     `json:"n"`      // member name bytes (arrays: empty)
 	NIsInt bool  `json:"nisint"` // name is a decimal int64 literal
 	NI     B     `json:"ni"`     // its value (8 bytes) when NIsInt
+	NIsU   bool  `json:"nisuint"` // name is a decimal uint64 literal
+	NU     B     `json:"nu"`
 	V      JDump `json:"v"`
 }
 type JDump struct {
@@ -28,10 +30,15 @@ type JDump struct {
 	F     B         `json:"f"`    // num: float64 bits
 	FInt  bool      `json:"fint"` // num: the value is integral and fits int64
 	FI    B         `json:"fi"`   // that integer
+	IsU   bool      `json:"isuint"` // num/str: decimal uint64 literal
+	U     B         `json:"u"`
+	F32   B         `json:"f32"` // num: float32 bits of the literal (strconv, 32-bit rounding)
 	E     []JMember `json:"e"`
 }
 
-func jd(k string) JDump { return JDump{K: k, B: B{}, I: be8(0), F: be8(0), FI: be8(0), E: []JMember{}} }
+func jd(k string) JDump {
+	return JDump{K: k, B: B{}, I: be8(0), F: be8(0), FI: be8(0), U: be8(0), F32: B{0, 0, 0, 0}, E: []JMember{}}
+}
 
 type jparser struct {
 	s []byte
@@ -93,7 +100,10 @@ func (j *jparser) value(depth int) (JDump, error) {
 			if err != nil {
 				return d, err
 			}
-			m := JMember{N: B(name), NI: be8(0), V: v}
+			m := JMember{N: B(name), NI: be8(0), NU: be8(0), V: v}
+			if n, e := strconv.ParseUint(string(name), 10, 64); e == nil && strconv.FormatUint(n, 10) == string(name) {
+				m.NIsU, m.NU = true, be8(int64(n))
+			}
 			if n, e := strconv.ParseInt(string(name), 10, 64); e == nil && strconv.FormatInt(n, 10) == string(name) {
 				m.NIsInt, m.NI = true, be8(n)
 			}
@@ -126,7 +136,7 @@ func (j *jparser) value(depth int) (JDump, error) {
 			if err != nil {
 				return d, err
 			}
-			d.E = append(d.E, JMember{N: B{}, NI: be8(0), V: v})
+			d.E = append(d.E, JMember{N: B{}, NI: be8(0), NU: be8(0), V: v})
 			j.ws()
 			if j.p >= len(j.s) {
 				return d, fmt.Errorf("eof in array")
@@ -150,6 +160,9 @@ func (j *jparser) value(depth int) (JDump, error) {
 		}
 		if f, e := strconv.ParseFloat(string(b), 64); e == nil {
 			d.F = be8(int64(math.Float64bits(f)))
+		}
+		if n, e := strconv.ParseUint(string(b), 10, 64); e == nil && strconv.FormatUint(n, 10) == string(b) {
+			d.IsU, d.U = true, be8(int64(n))
 		}
 		return d, err
 	case c == 't':
@@ -227,7 +240,12 @@ func (j *jparser) num() (JDump, error) {
 		return d, fmt.Errorf("bad number %q", lit)
 	}
 	d.F = be8(int64(math.Float64bits(f)))
+	f32, _ := strconv.ParseFloat(lit, 32)
+	d.F32 = be4(math.Float32bits(float32(f32)))
 	if isInt {
+		if n, e := strconv.ParseUint(lit, 10, 64); e == nil {
+			d.IsU, d.U = true, be8(int64(n))
+		}
 		if n, e := strconv.ParseInt(lit, 10, 64); e == nil {
 			d.IsInt, d.I = true, be8(n)
 			d.FInt, d.FI = true, be8(n)
